@@ -196,7 +196,7 @@ def bounded(tier, seed):
     res = native("serialization.py", {"seed": seed, "n": n}, timeout=3000)
     if not res.get("ok"):
         raise RuntimeError(f"native driver failed: {res}")
-    return [{"name": "round_trips_of_grids_fields_collections", "bound": f"{n} random instances per grid class (holes incl. tiny ones, periodic flags, negative bounds) x state/JSON/copy/deepcopy/pickle; fields and collections of ranks 0-2, several dtypes and labels; from_data on every grid class",
+    return [{"name": "round_trips_of_grids_fields_collections", "bound": f"{n} random instances per grid class (holes incl. tiny ones, periodic flags, negative bounds) x state/JSON/copy/deepcopy/pickle; fields and collections of ranks 0-2, several dtypes and labels (None, empty, non-empty; collection members too); cylinders and Cartesian grids with non-dyadic cell sizes (bounds bit for bit); from_data on every grid class",
              "cases": res["cases"], "failures": res["failures"]}]
 
 
